@@ -479,6 +479,9 @@ class CircuitTemplate(AbstractBaseTemplate):
         #################################################
 
         # create mapping between requested output variables and the current network variables
+        # (positions inside the backend variables are needed here, not positions in the state vector of a function
+        # generated earlier via `get_run_func`/`get_jacobian_func`, which `_get_var_idx` would translate to)
+        net._state_var_indices = {}
         if type(outputs) is dict:
             output_map, outputs_ir = net.get_variable_positions(outputs)
         else:
